@@ -5,7 +5,7 @@ patch="$1"; shift
 if [ -n "$(git -C /repo status --porcelain --untracked-files=no)" ]; then echo "refusing: /repo has uncommitted changes"; exit 2; fi
 git -C /repo apply "$patch" || { echo "patch does not apply"; exit 2; }
 for p in "$@"; do
-  out=$(cd /verif && bin/check "$p" 2>&1 | grep -v "^KNOWN-FINDING" | tail -2 | tr '\n' ' ')
+  out=$(cd /verif && bin/check "$p" ${NOLEAN:+--no-lean} 2>&1 | grep -v "^KNOWN-FINDING" | tail -2 | tr '\n' ' ')
   echo "$p: $out"
 done
 git -C /repo checkout -- .
